@@ -164,6 +164,9 @@ def run(tier, out, model_ok, proof):
     rng = random.Random(seed())
     big = tier == "thorough"
     docs = [d.encode() for d in special_docs() + lazy_docs()]
+    import importlib
+    rm = [d for _, d in importlib.import_module("checks.C01").reference_matrix()]
+    docs += rm if big else rm[::4]
     for i in range(1500 if big else 200):
         docs.append(render(typedgen.gen_typed(rng)))
     for i in range(800 if big else 120):
@@ -225,6 +228,8 @@ def run(tier, out, model_ok, proof):
     # correspondence of the skeleton with the extracted model
     mism, nmodel = [], 0
     if model_ok and shaped:
+        # the executable model indexes a file as a list: files above 12 KB stay in the implementation-side checks only
+        shaped = [(c, oa) for c, oa in shaped if len(c["files"]["root.jst"]) // 2 <= 12000]
         sub = [c for c, _ in shaped]
         lines2 = [json.dumps(c) for c in sub]
         tres, _ = treecorr.run_isolated(os.path.join(BUILD, "harness"), ["tree"], lines2)
